@@ -138,8 +138,11 @@ func (e *Executor) poll(ctx context.Context) error {
 }
 
 func (e *Executor) runOnService(ctx context.Context, isRootPlan bool, service string, typName string, keys []interface{}, kind string, selectionSet *graphql.SelectionSet, metadata interface{}, planner *Planner) ([]interface{}, interface{}, error) {
-	// Execute query on specified service
+	// Execute query on specified service. setPlanner replaces the introspection
+	// client in e.Executors when the schema is refreshed.
+	e.syncer.plannerMu.RLock()
 	executorClient, ok := e.Executors[service]
+	e.syncer.plannerMu.RUnlock()
 	if !ok {
 		return nil, nil, oops.Errorf("service %s not recognized", service)
 	}
